@@ -55,6 +55,14 @@ def base_bundle(plan, seqno):
     return rfc9171.encode_bundle(pri, blocks)
 
 
+def _is_admin_out(data):
+    ''' Whether a transmitted bundle is an administrative record; an output the reference decoder rejects is not one. '''
+    try:
+        return bc.is_admin(rfc9171.decode_bundle(data))
+    except rfc9171.Malformed:
+        return False
+
+
 class Run:
     pass
 
@@ -156,7 +164,7 @@ def _drive(run, plan, har):
                 run.viols.append(('input', 'delivered-corrupt-' + klass, 'corrupted bundle was delivered: %s' % where))
                 return
             if outs:
-                what = 'report' if bc.is_admin(rfc9171.decode_bundle(outs[0]['data'])) else 'forward'
+                what = 'report' if _is_admin_out(outs[0]['data']) else 'forward'
                 run.viols.append(('input', '%s-for-corrupt-%s' % (what, klass), 'corrupted bundle caused a %s: %s' % (what, where)))
                 return
         # 2. clean copy: processed exactly once
@@ -165,7 +173,7 @@ def _drive(run, plan, har):
         har.settle()
         (dels, outs) = _observed(har, mark)
         clean_outs.extend(outs)
-        fwd = [out for out in outs if not bc.is_admin(rfc9171.decode_bundle(out['data']))]
+        fwd = [out for out in outs if not _is_admin_out(out['data'])]
         same_ident = klass == 'unprotected'
         if not same_ident:
             if plan['route'] == 'deliver' and len(dels) != 1:
